@@ -49,36 +49,47 @@ pub fn exec_line(line: &str) -> String {
     }) { Ok(s) => s, Err(m) => format!("PANIC {}", m.replace('\n', " ")) }
 }
 
+pub static LAST_PANIC: std::sync::Mutex<String> = std::sync::Mutex::new(String::new());
+
 fn main() {
     let args: Vec<String> = std::env::args().collect();
     if args.len() < 2 { eprintln!("usage: harness run <prop> <tier> <seed> <outdir> | exec | extract <outdir> | sizes"); std::process::exit(2); }
-    std::panic::set_hook(Box::new(|i| { if std::env::var("HARNESS_SHOW_PANICS").is_ok() { eprintln!("{}", i); } }));
+    std::panic::set_hook(Box::new(|i| { if let Ok(mut g) = LAST_PANIC.lock() { *g = i.to_string().replace('\n', " "); } if std::env::var("HARNESS_SHOW_PANICS").is_ok() { eprintln!("{}", i); } }));
     match args[1].as_str() {
         "run" => {
             let (prop, tier, seed, dir) = (&args[2], &args[3], args[4].parse::<u64>().unwrap(), &args[5]);
             let mut o = Out::default();
+            let r = std::panic::catch_unwind(std::panic::AssertUnwindSafe(|| {
             match prop.as_str() {
-                "C01" => c01::run(&mut o, tier, seed),
-                "C02" => c02::run(&mut o, tier, seed),
-                "C03" => c03::run_c03(&mut o, tier, seed),
-                "C05" => c03::run_c05(&mut o, tier, seed),
-                "C15" => c15::run(&mut o, tier, seed),
-                "C16" => c16::run(&mut o, tier, seed),
-                "C17" => c17::run(&mut o, tier, seed),
-                "C13" => c13::run(&mut o, tier, seed),
-                "C07" => c07::run_c07(&mut o, tier, seed),
-                "C08" => c07::run_c08(&mut o, tier, seed),
-                "C09" => c10::run_c09(&mut o, tier, seed),
-                "C10" => c10::run_c10(&mut o, tier, seed),
-                "C11" => c10::run_c11(&mut o, tier, seed),
-                "C19" => c19::run(&mut o, tier, seed),
-                "C12" => c12::run(&mut o, tier, seed),
-                "C04" => c04::run(&mut o, tier, seed),
-                "C06" => c06::run(&mut o, tier, seed),
-                "C14" => c14::run(&mut o, tier, seed),
-                "C18" => c18::run(&mut o, tier, seed),
-                "C20" => c20::run(&mut o, tier, seed),
-                _ => { eprintln!("unknown property {}", prop); std::process::exit(2); }
+                    "C01" => c01::run(&mut o, tier, seed),
+                    "C02" => c02::run(&mut o, tier, seed),
+                    "C03" => c03::run_c03(&mut o, tier, seed),
+                    "C05" => c03::run_c05(&mut o, tier, seed),
+                    "C15" => c15::run(&mut o, tier, seed),
+                    "C16" => c16::run(&mut o, tier, seed),
+                    "C17" => c17::run(&mut o, tier, seed),
+                    "C13" => c13::run(&mut o, tier, seed),
+                    "C07" => c07::run_c07(&mut o, tier, seed),
+                    "C08" => c07::run_c08(&mut o, tier, seed),
+                    "C09" => c10::run_c09(&mut o, tier, seed),
+                    "C10" => c10::run_c10(&mut o, tier, seed),
+                    "C11" => c10::run_c11(&mut o, tier, seed),
+                    "C19" => c19::run(&mut o, tier, seed),
+                    "C12" => c12::run(&mut o, tier, seed),
+                    "C04" => c04::run(&mut o, tier, seed),
+                    "C06" => c06::run(&mut o, tier, seed),
+                    "C14" => c14::run(&mut o, tier, seed),
+                    "C18" => c18::run(&mut o, tier, seed),
+                    "C20" => c20::run(&mut o, tier, seed),
+                    _ => { eprintln!("unknown property {}", prop); std::process::exit(2); }
+                }
+            }));
+            if r.is_err() {
+                // a library call made directly by the generator (outside `exec`) panicked: report it against the last operation
+                let msg = LAST_PANIC.lock().map(|g| g.clone()).unwrap_or_default();
+                let last = o.ops.last().cloned().unwrap_or_default();
+                o.direct(false, "C04: the library panicked in a call made by the harness", last, msg, "no panic".into());
+                o.notes.push("generation stopped early: a library call panicked".into());
             }
             o.write(dir);
         }
